@@ -112,12 +112,40 @@ def synthetic_styles():
     return styles
 
 
-def stream_case(cid, sdocs, style, ids, desc):
-    """Render a list of SDocs with the coloured renderer; build the ColorTrace case."""
+def random_annotated_doc(rng, depth=0):
+    """A choice-free document (text, HARDLINE, nest, annotate, concat) together with the stream it DENOTES: the
+    expected styling is read off the document, not off whatever stream the layout engine produces for it.
+    Returns (doc, ideal(indent) -> list of SDocs)."""
+    from prettyprinter.doc import concat, nest, annotate, HARDLINE
+    r = rng.random()
+    if depth >= 4 or r < 0.25:
+        t = rng.choice(['a', 'bb', 'c ', 'x y', 'Z'])
+        return t, (lambda ind, t=t: [t])
+    if r < 0.55:
+        v = rng.choice(list(Token)) if rng.random() < 0.8 else rng.choice(['other', 17, ('x',)])
+        d, f = random_annotated_doc(rng, depth + 1)
+        return annotate(v, d), (lambda ind, v=v, f=f: [SAnnotationPush(v)] + f(ind) + [SAnnotationPop(v)])
+    if r < 0.7:
+        d, f = random_annotated_doc(rng, depth + 1)
+        return nest(2, d), (lambda ind, f=f: f(ind + 2))
+    parts = [random_annotated_doc(rng, depth + 1) for _ in range(rng.choice([2, 2, 3]))]
+    docs, fs = [], []
+    for i, (d, f) in enumerate(parts):
+        if i and rng.random() < 0.6:
+            docs.append(HARDLINE)
+            fs.append(lambda ind: [SLine(ind)])
+        docs.append(d)
+        fs.append(f)
+    return concat(docs), (lambda ind, fs=fs: [x for f in fs for x in f(ind)])
+
+
+def stream_case(cid, sdocs, style, ids, desc, rendered=None):
+    """Render a list of SDocs with the coloured renderer; build the ColorTrace case. `rendered`: the stream that is
+    actually rendered when it is not `sdocs` itself (sdocs is then the ground truth the document denotes)."""
     buf = io.StringIO()
     try:
         with common.time_limit(20):
-            COLOR.colored_render_to_stream(buf, list(sdocs), style=style)
+            COLOR.colored_render_to_stream(buf, list(sdocs if rendered is None else rendered), style=style)
     except (Exception, common.Timeout) as e:  # noqa
         return None, e
     text = buf.getvalue()
@@ -206,6 +234,30 @@ def check_c16(chk, args):
             cases.append(case)
             meta[cid] = desc
             chk.nontrivial(('syn', tuple(desc['stream']), style.__name__))
+        # (a') annotated DOCUMENTS (tokens nested up to depth 4 around text and hard line breaks) laid out by the real
+        # engine: the styling expected is the one the document denotes
+        from prettyprinter.layout import layout_smart
+        for i in range(300 if q else 6000):
+            doc, ideal = random_annotated_doc(rng)
+            if isinstance(doc, str):
+                continue
+            style = rng.choice(syn + [s for _, s in styles[:4]])
+            cid = len(cases) + 1
+            truth = ideal(0)
+            desc = {'document_denotes': [x if isinstance(x, str) else repr(x) for x in truth], 'style': style.__name__}
+            try:
+                real = list(layout_smart(doc, width=rng.choice([10, 40]), ribbon_frac=1.0))
+            except Exception as e:  # noqa
+                chk.violation('C16.raises', 'layout of an annotated document raised %r: %r' % (e, desc), desc)
+                continue
+            desc['stream'] = [x if isinstance(x, str) else repr(x) for x in real]
+            case, err = stream_case(cid, truth, style, ids, desc, rendered=real)
+            if err is not None:
+                chk.violation('C16.raises', 'rendering %r with style %s raised %r' % (desc['stream'], style.__name__, err), desc)
+                continue
+            cases.append(case)
+            meta[cid] = desc
+            chk.nontrivial(('doc', tuple(desc['stream']), style.__name__))
         # (b) cpprint of real values x every style
         import values
         from checks import comments as CM
